@@ -17,11 +17,15 @@ pub struct Val {
     /// the value is the result of calling a translated `Result`-returning function: its `Res`
     /// term may be `panic`, so it may only be used by `?` or as the function result
     pub callres: bool,
+    /// the value is the result of calling a translated function that threads the subtag iterator
+    /// (declaration id of the iterator variable that was passed): `t : Res (T × List Bytes)`,
+    /// `ty = Result<T, ParserError>`
+    pub itercall: Option<u32>,
 }
 
 impl Val {
     pub fn pure_(t: impl Into<String>, ty: Ty) -> Val {
-        Val { t: t.into(), ty, binds: vec![], range: None, callres: false }
+        Val { t: t.into(), ty, binds: vec![], range: None, callres: false, itercall: None }
     }
     pub fn eff(&self) -> bool {
         !self.binds.is_empty()
@@ -45,7 +49,64 @@ impl Val {
     }
 }
 
-pub type Env = HashMap<String, Val>;
+/// Variables in scope.  A Rust variable is a *declaration* (a number); a name resolves to the
+/// innermost declaration of that name; the current value of every declaration that was ever in
+/// scope is kept (a shadowed variable comes back when the shadowing scope ends, and an assignment
+/// replaces the value of a declaration).
+#[derive(Clone, Debug, Default)]
+pub struct Env {
+    names: HashMap<String, u32>,
+    vals: BTreeMap<u32, (String, Val)>,
+}
+
+static NEXT_DECL: std::sync::atomic::AtomicU32 = std::sync::atomic::AtomicU32::new(1);
+
+impl Env {
+    pub fn new() -> Env {
+        Env::default()
+    }
+    pub fn get(&self, n: &str) -> Option<&Val> {
+        self.names.get(n).and_then(|d| self.vals.get(d)).map(|x| &x.1)
+    }
+    pub fn decl_of(&self, n: &str) -> Option<u32> {
+        self.names.get(n).copied()
+    }
+    /// A new declaration (`let`, a parameter, a pattern binding).
+    pub fn insert(&mut self, n: String, v: Val) -> u32 {
+        let d = NEXT_DECL.fetch_add(1, std::sync::atomic::Ordering::SeqCst);
+        self.names.insert(n.clone(), d);
+        self.vals.insert(d, (n, v));
+        d
+    }
+    /// A new value for an existing declaration (assignment).
+    pub fn assign(&mut self, d: u32, v: Val) {
+        if let Some(slot) = self.vals.get_mut(&d) {
+            slot.1 = v;
+        }
+    }
+    pub fn val_of(&self, d: u32) -> Option<&Val> {
+        self.vals.get(&d).map(|x| &x.1)
+    }
+    pub fn name_of(&self, d: u32) -> Option<&str> {
+        self.vals.get(&d).map(|x| x.0.as_str())
+    }
+    /// Make a name unreachable (a variable that is borrowed for the duration of a loop).
+    pub fn hide(&mut self, n: &str) {
+        self.names.remove(n);
+    }
+    /// The environment after a scope that started with `outer` ends in `self`: the names are
+    /// `outer`'s again, the values are the current ones.
+    pub fn scope_exit(&self, outer: &Env) -> Env {
+        let mut vals = self.vals.clone();
+        // declarations made inside the scope are dead
+        vals.retain(|d, _| outer.vals.contains_key(d));
+        Env { names: outer.names.clone(), vals }
+    }
+    /// All declarations with a value, in declaration order.
+    pub fn decls(&self) -> Vec<(u32, String, Val)> {
+        self.vals.iter().map(|(d, (n, v))| (*d, n.clone(), v.clone())).collect()
+    }
+}
 
 #[derive(Clone, Copy, PartialEq, Debug)]
 pub enum Mode {
@@ -62,6 +123,12 @@ pub struct FnSig {
     pub params: Vec<String>, // Lean types
     pub ret: Ty,
     pub mode: Mode,
+    /// index of the parameter that is the subtag iterator the function advances (its final value
+    /// is the second component of the result)
+    pub iter_param: Option<usize>,
+    /// the function takes `&mut self` (parameter 0) and returns the new value first
+    pub mut_self: bool,
+    pub ret_unit: bool,
 }
 
 pub struct Tr<'a> {
@@ -80,6 +147,27 @@ pub struct Tr<'a> {
     pub deps: BTreeMap<String, String>,
     pub done: &'a BTreeMap<String, FnSig>,
     pub failed: &'a BTreeMap<String, String>,
+    /// variable updates caused by the expression being translated: (declaration, new value)
+    pub pending: Vec<(u32, String)>,
+    /// types that became known after the declaration (`let mut x = None;`)
+    pub decl_ty: HashMap<u32, Ty>,
+    /// declaration -> the `let` that made it (only for declarations whose type was not known)
+    pub decl_site: HashMap<u32, usize>,
+    /// `let` statement (address) -> the type later code gave the variable (found by the first pass)
+    pub site_ty: HashMap<usize, Ty>,
+    pub first_pass: bool,
+    /// loop (address of its body) + names in scope -> the definition already emitted for it
+    pub loop_cache: HashMap<(usize, Vec<String>), (String, Vec<String>)>,
+    /// auxiliary definitions (loops), in dependency order
+    pub aux: Vec<String>,
+    pub aux_n: u32,
+    pub loops: Vec<crate::tr_loop::LoopCtx>,
+    /// declarations whose final value is part of the function's result, in this order:
+    /// `&mut self`, the subtag iterator / the formatter buffer
+    pub outs: Vec<u32>,
+    pub self_out: Option<u32>,
+    /// the declared result carries no information (`()`, `fmt::Result`, `Result<(), E>`)
+    pub ret_unit: bool,
 }
 
 #[derive(Clone, Debug)]
@@ -88,6 +176,8 @@ pub enum TParam {
     SelfLike,
     /// `P: PartialEq`, instantiated by the configuration
     Inst(Ty),
+    /// `S: AsRef<[u8]>`: a byte string (`.as_ref()` is the identity)
+    BytesLike,
 }
 
 const LEAN_RESERVED: &[&str] = &[
@@ -124,7 +214,7 @@ impl<'a> Tr<'a> {
     pub fn mk_eff(&mut self, comp: impl Into<String>, ty: Ty, mut before: Vec<(String, String)>) -> Val {
         let x = self.fresh("x");
         before.push((x.clone(), comp.into()));
-        Val { t: x, ty, binds: before, range: None, callres: false }
+        Val { t: x, ty, binds: before, range: None, callres: false, itercall: None }
     }
 
     pub fn unsup<T>(&self, what: impl AsRef<str>) -> R<T> {
@@ -243,6 +333,7 @@ impl<'a> Tr<'a> {
                         return match tp {
                             TParam::SelfLike => self.self_named(),
                             TParam::Inst(_) => Ok(Ty::Param(name)),
+                            TParam::BytesLike => Ok(Ty::Slice),
                         };
                     }
                 }
@@ -267,6 +358,21 @@ impl<'a> Tr<'a> {
                         other if name == "Vec" => Ok(Ty::List(Box::new(self.resolve_ty(other)?))),
                         _ => self.unsup("`Box<T>` where T is not a slice"),
                     },
+                    "BTreeMap" if args.len() == 2 => {
+                        let kt = self.resolve_ty(args[0])?;
+                        let vt = self.resolve_ty(args[1])?;
+                        if kt == Ty::Tiny(4) && vt == Ty::List(Box::new(Ty::Tiny(8))) {
+                            Ok(Ty::Map)
+                        } else {
+                            self.unsup(format!("`BTreeMap<{:?}, {:?}>` (the model has only TinyStr4 -> Vec<TinyStr8> maps)", kt, vt))
+                        }
+                    }
+                    "LanguageIdentifierError" | "LocaleError" => {
+                        // a wrapper of ParserError: `From<ParserError>` must be the wrapping conversion
+                        self.check_error_wrapper(&name)?;
+                        Ok(Ty::PErr)
+                    }
+                    "Formatter" => Ok(Ty::Fmt),
                     "ParserError" => {
                         // both crates define it in parser/errors.rs
                         let ef = Registry::errors_file_for(self.file);
@@ -282,9 +388,55 @@ impl<'a> Tr<'a> {
                     }
                 }
             }
-            syn::Type::Tuple(_) => self.unsup("tuple type"),
+            syn::Type::Tuple(t) => {
+                if t.elems.is_empty() {
+                    return Ok(Ty::Unit);
+                }
+                let mut out = Vec::new();
+                for e in &t.elems {
+                    out.push(self.resolve_ty(e)?);
+                }
+                Ok(Ty::Tuple(out))
+            }
             other => self.unsup(format!("type `{}`", norm_tokens(other))),
         }
+    }
+
+    /// `LanguageIdentifierError` / `LocaleError`: the crate's `errors.rs` must define
+    /// `impl From<ParserError> for X { fn from(e) -> Self { X::ParserError(e) } }`; then a
+    /// `Result<T, X>` that is only ever built from `ParserError`s is the model's `Res T`.
+    pub fn check_error_wrapper(&mut self, name: &str) -> R<()> {
+        let krate = self.file.split('/').next().unwrap_or("").to_string();
+        let ef = format!("{}/src/errors.rs", krate);
+        let f = self.reg.file(&ef)?;
+        for it in &f.items {
+            if let syn::Item::Impl(im) = it {
+                let tr = match &im.trait_ {
+                    Some((_, p, _)) => p,
+                    None => continue,
+                };
+                if tr.segments.last().map(|s| s.ident != "From").unwrap_or(true) {
+                    continue;
+                }
+                let self_name = match &*im.self_ty {
+                    syn::Type::Path(p) => p.path.segments.last().map(|s| s.ident.to_string()).unwrap_or_default(),
+                    _ => String::new(),
+                };
+                if self_name != name {
+                    continue;
+                }
+                let toks = norm_tokens(im);
+                let want = format!("{} :: ParserError (", name);
+                let want2 = "Self :: ParserError (";
+                if toks.contains("From < ParserError >") && (toks.contains(&want) || toks.contains(want2)) {
+                    let mut bare = im.clone();
+                    bare.attrs.clear();
+                    self.deps.insert(format!("{}::impl From<ParserError> for {}", ef, name), norm_tokens(&bare));
+                    return Ok(());
+                }
+            }
+        }
+        self.unsup(format!("no wrapping `impl From<ParserError> for {}` found in {}", name, ef))
     }
 
     pub fn self_named(&mut self) -> R<Ty> {
@@ -314,7 +466,18 @@ impl<'a> Tr<'a> {
                     Some(c) => c,
                     None => return self.unsup(format!("struct {} has a field `{}` the model structure does not have", name, fname)),
                 };
-                let rt = self.resolve_ty(fty)?;
+                if c.1 == "-" {
+                    // a field the model does not have: every use of it is refused
+                    continue;
+                }
+                let saved = self.file;
+                let saved_self = self.self_ty.clone();
+                self.file = cfg.file;
+                self.self_ty = Some(name.to_string());
+                let rt = self.resolve_ty(fty);
+                self.file = saved;
+                self.self_ty = saved_self;
+                let rt = rt?;
                 let lt = self.lean_ty(&rt)?;
                 if lt != c.2 {
                     return self.unsup(format!("field {}.{} has Lean type `{}`, the model has `{}`", name, fname, lt, c.2));
@@ -367,6 +530,18 @@ impl<'a> Tr<'a> {
             Ty::ResPE(x) => format!("Res {}", atom(self.lean_ty(x)?)),
             Ty::ResOpaque(x) => format!("Option {}", atom(self.lean_ty(x)?)),
             Ty::List(x) | Ty::Iter(x) => format!("List {}", atom(self.lean_ty(x)?)),
+            Ty::IterB => "List Bytes".into(),
+            Ty::Map => "AMap".into(),
+            Ty::Fmt => "Bytes".into(),
+            Ty::FmtRes => "Unit".into(),
+            Ty::BSearch => "Nat ⊕ Nat".into(),
+            Ty::Tuple(xs) => {
+                let mut parts = Vec::new();
+                for x in xs {
+                    parts.push(atom(self.lean_ty(x)?));
+                }
+                parts.join(" × ")
+            }
             Ty::Named(n) => {
                 if let Some(inner) = self.newtype_inner(n)? {
                     self.lean_ty(&inner)?
